@@ -19,25 +19,91 @@ open Aoe.Props.C05 (Diverge frame get_set)
 def countGuard (classes : List ClassSpec) (fuel k : Nat) (L : List (Nat × LinkKind)) (name : Nat) (cp : List PStep) : Bool :=
   L.all (fun l => l.1 == name || linkAway classes fuel k cp l.2)
 
-/-- the refresh of a counted list: exactly one action `count := len(list)` on a field of the same record -/
-def singleLen : List RefreshAct → Option (Nat × Nat)
-  | [{ dest := .self ci, expr := .len (.ref (.self nm)) }] => some (ci, nm)
+/-- the refresh of a counted list: the FIRST action is `count := len(list)` on a field of the same record; further actions
+(copies of the count in other sections, …) may follow -/
+def headLen : List RefreshAct → Option (Nat × Nat × List RefreshAct)
+  | { dest := .self ci, expr := .len (.ref (.self nm)) } :: rest => some (ci, nm, rest)
   | _ => none
 
-theorem singleLen_some (acts : List RefreshAct) (ci nm : Nat) (h : singleLen acts = some (ci, nm)) :
-    acts = [{ dest := .self ci, expr := .len (.ref (.self nm)) }] := by
-  unfold singleLen at h
+theorem headLen_some (acts : List RefreshAct) (ci nm : Nat) (rest : List RefreshAct) (h : headLen acts = some (ci, nm, rest)) :
+    acts = { dest := .self ci, expr := .len (.ref (.self nm)) } :: rest := by
+  unfold headLen at h
   split at h
   · simp only [Option.some.injEq, Prod.mk.injEq] at h
-    obtain ⟨rfl, rfl⟩ := h; rfl
+    obtain ⟨rfl, rfl, rfl⟩ := h; rfl
   · cases h
+
+/-- the further refresh actions of the link do not write the count retriever again -/
+def restAway (path : List PStep) (ci : Nat) (rest : List RefreshAct) : Bool :=
+  rest.all (fun r => PDiverge (destPPath path r.dest) (destPPath path (.self ci)))
+
+theorem foldlM_cons_split {α : Type} (f : Sections → α → Except Err Sections) (a : α) (rest : List α) (s : Sections) :
+    (a :: rest).foldlM f s = ([a].foldlM f s >>= fun s3 => rest.foldlM f s3) := by
+  simp only [List.foldlM_cons, List.foldlM_nil, bind_pure]
+
+theorem applyActs_cons (a : RefreshAct) (rest : List RefreshAct) (rp : List Step) (names : List Nat) (s : Sections) :
+    applyActs (a :: rest) rp names s = (applyActs [a] rp names s >>= fun s3 => applyActs rest rp names s3) := by
+  unfold applyActs
+  exact foldlM_cons_split _ a rest s
+
+/-- `pushLink_objs_count` for a refresh list whose first action is the count -/
+theorem pushLink_objs_count_head (rc : Nat → List Nat → Val → Sections → Except Err Sections)
+    (F : Nat → List Nat → Val → List (List Step)) (hist : List Nat)
+    (s s' : Sections) (a : Nat) (path : List PStep) (ccls : Nat) (defaults : List Val) (childNames : List Nat)
+    (guards : List (Nat × Expr)) (names : List Nat) (os : List Val) (p : List Step) (ci nm jj : Nat) (rest : List RefreshAct)
+    (hp : resolve hist path = some p) (hlast : path.getLast? = some (PStep.fld jj)) (hfirst : firstAt names nm jj = true)
+    (hrest : restAway path ci rest = true)
+    (hrc : ∀ h o t t', rc ccls h o t = .ok t' → AllPres (ListLen p os.length) (F ccls h o) →
+      ListLen p os.length t.root → ListLen p os.length t'.root)
+    (hch : ∀ oi ∈ os.zipIdx, AllPres (ListLen p os.length) (F ccls (hist ++ [oi.2]) oi.1))
+    (h : pushLink rc hist s ((a, .objs path ccls defaults childNames guards
+            ({ dest := .self ci, expr := .len (.ref (.self nm)) } :: rest) names), .list os) = .ok s') :
+    getAt (dropLastStep p ++ [Step.fld ci]) s'.root = some (.int os.length) := by
+  obtain ⟨p', old, dflt, s1, s2, hr, hg, hw, hf, ha⟩ :=
+    pushLink_objs_steps rc hist s s' a path ccls defaults childNames guards _ names os h
+  rw [hp] at hr; cases hr
+  have h1 : ListLen p os.length s1.root := by
+    cases hs : setAt p s.root (.list (resizeList old os.length dflt)) with
+    | none => simp [hs, Option.bind] at hw
+    | some r =>
+      simp only [hs, Option.bind] at hw
+      rw [(withRoot_some s s1 r hw).1]
+      exact ⟨_, get_set p s.root _ r hs, resizeList_length old os.length dflt⟩
+  have h2 : ListLen p os.length s2.root := by
+    refine foldlM_inv (ListLen p os.length) _ (os.zipIdx) ?_ s1 s2 hf h1
+    intro oi hoi t t' ht hQt
+    exact hrc (hist ++ [oi.2]) oi.1 t t' ht (hch oi hoi) hQt
+  obtain ⟨l, hl, hlen⟩ := h2
+  rw [resolve_last_fld hist path p jj hp hlast] at hl
+  obtain ⟨vs, hrec, hvj⟩ := getAt_append_fld _ jj _ _ hl
+  have hlook : (s2.env names (.strct vs)).lookup (.self nm) = .ok (.list l) := by
+    simp only [Env.lookup, Sections.env, zip_get_firstAt names vs nm jj _ hfirst hvj]
+  -- the first action, then the others
+  have hsplit := applyActs_cons { dest := .self ci, expr := .len (.ref (.self nm)) } rest (dropLastStep p) names s2
+  rw [hsplit] at ha
+  simp only [bind, Except.bind] at ha
+  cases h3 : applyActs [{ dest := .self ci, expr := .len (.ref (.self nm)) }] (dropLastStep p) names s2 with
+  | error e => rw [h3] at ha; cases ha
+  | ok s3 =>
+    rw [h3] at ha
+    have hc3 := count_equals_length ci nm (dropLastStep p) names s2 s3 (.strct vs) l hrec hlook h3
+    rw [hlen] at hc3
+    have hcp : resolve hist (destPPath path (.self ci)) = some (dropLastStep p ++ [Step.fld ci]) := by
+      have := resolve_dest hist path p (.self ci) hp
+      simpa [Dest.path] using this
+    refine applyActs_inv (fun t => getAt (dropLastStep p ++ [Step.fld ci]) t = some (.int os.length)) rest (dropLastStep p) names
+      ?_ s3 s' ha hc3
+    intro r hr
+    exact pres_of_diverge _ _ _ (resolve_diverge hist _ _ _ _ (resolve_dest hist path p r.dest hp) hcp
+      (List.all_eq_true.mp hrest r hr))
 
 /-- the count fact of one (link, value) pair -/
 def countFact (classes : List ClassSpec) (fuel : Nat) (L : List (Nat × LinkKind)) (hist : List Nat)
     (lv : (Nat × LinkKind) × Val) (t : Val) : Prop :=
   match lv.1.2, lv.2 with
   | .objs path _ _ _ _ acts names, .list os =>
-    ∀ ci nm jj, singleLen acts = some (ci, nm) → path.getLast? = some (PStep.fld jj) → firstAt names nm jj = true →
+    ∀ ci nm jj rest, headLen acts = some (ci, nm, rest) → restAway path ci rest = true →
+      path.getLast? = some (PStep.fld jj) → firstAt names nm jj = true →
       countGuard classes fuel hist.length L lv.1.1 (destPPath path (.self ci)) = true →
       ∀ p, resolve hist path = some p → getAt (dropLastStep p ++ [Step.fld ci]) t = some (.int os.length)
   | _, _ => True
@@ -102,8 +168,8 @@ theorem counts_pres (classes : List ClassSpec) (fuel : Nat) :
             · -- the count retriever lies in the child's record, below `p ++ [idx i]`
               have hcf := hl.1
               simp only [countFact] at hcf ⊢
-              intro ci nm jj hsl hlast hfirst hguard q hq
-              have hfact := hcf ci nm jj hsl hlast hfirst hguard q hq
+              intro ci nm jj rest hsl hra hlast hfirst hguard q hq
+              have hfact := hcf ci nm jj rest hsl hra hlast hfirst hguard q hq
               obtain ⟨r, hrne, rfl⟩ := resolve_child hist i pp path p hp hpb q hq
               obtain ⟨r2, hr2⟩ := dropLast_below p i r hrne (Step.fld ci)
               rw [hr2] at hfact ⊢
@@ -138,11 +204,11 @@ theorem pushLink_objs_counts (classes : List ClassSpec) (fuel : Nat) (L : List (
     kidsFact (Counts classes fuel) hist ((a, .objs path ccls defaults childNames guards acts names), .list os) s'.root := by
   refine ⟨?_, ?_⟩
   · simp only [countFact]
-    intro ci nm jj hsl hlast hfirst _ p hp
-    have hacts := singleLen_some acts ci nm hsl
+    intro ci nm jj rest hsl hra hlast hfirst _ p hp
+    have hacts := headLen_some acts ci nm rest hsl
     subst hacts
-    refine pushLink_objs_count (commitObj classes fuel) (foot classes fuel) hist s s' a path ccls defaults childNames
-      guards names os p ci nm jj hp hlast hfirst ?_ ?_ h
+    refine pushLink_objs_count_head (commitObj classes fuel) (foot classes fuel) hist s s' a path ccls defaults childNames
+      guards names os p ci nm jj rest hp hlast hfirst hra ?_ ?_ h
     · intro hh o t t' ht hpres hq
       exact commitObj_inv _ classes fuel ccls hh o t t' ht hpres hq
     · intro oi hoi w hw
@@ -262,8 +328,8 @@ theorem links_counts (classes : List ClassSpec) (fuel : Nat) (hist : List Nat) (
                 refine ⟨?_, ?_⟩
                 · have hcf := hold.1
                   simp only [countFact] at hcf ⊢
-                  intro ci nm jj hsl hlast hfirst hguard p hp
-                  have hfact := hcf ci nm jj hsl hlast hfirst hguard p hp
+                  intro ci nm jj rest hsl hra hlast hfirst hguard p hp
+                  have hfact := hcf ci nm jj rest hsl hra hlast hfirst hguard p hp
                   have haw : linkAway classes fuel hist.length (destPPath path' (.self ci)) x.2 = true := by
                     have := List.all_eq_true.mp hguard x hxL
                     simpa [hne] using this
@@ -325,7 +391,7 @@ example (s' : Sections) (h : commitObj demo3Classes 3 0 [] demo3Obj demo3Secs = 
       [{ dest := .self 1, expr := .len (.ref (.self 12)) }] [10, 11, 12]),
       .list [.strct [.int 99, .int 1, .int 2], .strct [.int 99, .int 3, .int 4]]) (by simp)).1
   simp only [countFact] at this
-  have h2 := this 1 12 2 rfl rfl (by decide) (by decide) [Step.fld 0, Step.fld 2] rfl
+  have h2 := this 1 12 2 [] rfl (by decide) rfl (by decide) (by decide) [Step.fld 0, Step.fld 2] rfl
   simpa [dropLastStep] using h2
 
 end Aoe.Props.CommitCounts
